@@ -389,17 +389,30 @@ func c10WriteBam(r *Rand, nref, nrec, seqLen int) ([]byte, error) {
 // payload (deflate data + CRC-32 + ISIZE; from the second on preceded by a plain ten-byte gzip header),
 // BSIZE covering all of it.  bgzf.Writer never writes more than 0xff00 bytes into a block; a foreign
 // writer may.
+const c10HandLiteral = 8
+
 func c10HandBlock(payloads [][]byte, level int) ([]byte, error) {
 	var body bytes.Buffer
 	for i, p := range payloads {
 		if i > 0 {
 			body.Write([]byte{0x1f, 0x8b, 8, 0, 0, 0, 0, 0, 0, 0xff})
 		}
+		// the first c10HandLiteral payload bytes go into a stored (non-final) deflate block, so that they
+		// stand literally in the stream: altering one of them alters exactly that payload byte and
+		// nothing else, and only the CRC-32 check can notice
+		lit := c10HandLiteral
+		if lit > len(p) {
+			lit = len(p)
+		}
+		if lit > 0 {
+			body.Write([]byte{0x00, byte(lit), byte(lit >> 8), ^byte(lit), ^byte(lit >> 8)})
+			body.Write(p[:lit])
+		}
 		fw, err := flate.NewWriter(&body, level)
 		if err != nil {
 			return nil, err
 		}
-		if _, err = fw.Write(p); err != nil {
+		if _, err = fw.Write(p[lit:]); err != nil {
 			return nil, err
 		}
 		if err = fw.Close(); err != nil {
@@ -430,6 +443,10 @@ func c10Pattern(r *Rand, n int) []byte {
 	}
 	return b
 }
+
+// c10LongSeq: sequence length from which a record (with its 2000 aux fields) is longer than a block, the
+// block boundary falling inside the aux data (4+32+name+1+4+n/2+n < 0xff00 < that + 8000).
+const c10LongSeq = 40000
 
 // c10WriteBamLens writes one record per entry of lens (its sequence length) through bam.Writer.
 // The content is compressible, so the stream is small although the records are not.
@@ -463,9 +480,26 @@ func c10WriteBamLens(r *Rand, lens []int) ([]byte, error) {
 				seq[j] = unit[(j+i)%len(unit)]
 				qual[j] = byte(20 + (j/64+i)%20)
 			}
+			// records longer than a block get many 4-byte aux fields (tag, 'c', value) and a name padded by
+			// 0..3 characters: bam.Writer starts such a record in a fresh block, so the block boundary lies
+			// 0xff00 bytes into it -- inside the aux data, at a field edge or 1, 2, 3 bytes past one
+			var aux []sam.Aux
+			name := fmt.Sprintf("long%03d", i)
+			if n >= c10LongSeq {
+				name += "pad"[:(i/4)%4]
+				const a1, a2 = "ABCDEFGHIJKLMNOPQRSTUVWXYZabcdefghijklmnopqrstuvwxyz", "ABCDEFGHIJKLMNOPQRSTUVWXYZabcdefghijklmnopqrstuvwxyz0123456789"
+				for k := 0; k < 2000; k++ {
+					var a sam.Aux
+					a, err = sam.NewAux(sam.NewTag(string([]byte{a1[k/len(a2)%len(a1)], a2[k%len(a2)]})), int8(k%100))
+					if err != nil {
+						return
+					}
+					aux = append(aux, a)
+				}
+			}
 			var rec *sam.Record
-			rec, err = sam.NewRecord(fmt.Sprintf("long%03d", i), ref, nil, 1000*i, -1, 0, 30,
-				sam.Cigar{sam.NewCigarOp(sam.CigarMatch, n)}, seq, qual, nil)
+			rec, err = sam.NewRecord(name, ref, nil, 1000*i, -1, 0, 30,
+				sam.Cigar{sam.NewCigarOp(sam.CigarMatch, n)}, seq, qual, aux)
 			if err != nil {
 				return
 			}
@@ -754,6 +788,19 @@ func c10JudgeTrunc(st *c10Stream, k, rd int, o c10Obs) (string, string) {
 		return "", ""
 	}
 	if !c10IsPrefix(o.recs, st.recs) {
+		// which one differs?  A record that has the original's name but fewer/other fields was assembled
+		// from a part of its bytes.
+		for i := 1; i < len(o.recs) && i < len(st.recs); i++ {
+			if o.recs[i] == st.recs[i] {
+				continue
+			}
+			got, want := strings.Split(o.recs[i], "\t"), strings.Split(st.recs[i], "\t")
+			if got[0] == want[0] {
+				return "trunc.bam.record-cut-short", fmt.Sprintf("cut %d is %s: record %d (%s) is returned with %d SAM fields, the original has %d; %d records returned, then %s",
+					k, c10Where(st, k), i-1, got[0], len(got), len(want), len(o.recs)-1, o.kind)
+			}
+			break
+		}
 		return "trunc.bam.not-a-prefix", fmt.Sprintf("cut %d: header/records returned are not a prefix of the original ones", k)
 	}
 	if o.kind == "eof" {
@@ -1441,7 +1488,17 @@ func checkC10(c *ctx) {
 		smp := sampled(st, 2)
 		first := st.members[0]
 		vals := func(pos int, role string) []int {
-			if pos >= first.start+first.size || strings.HasSuffix(role, "deflate") {
+			if pos >= first.start+first.size {
+				return nil
+			}
+			if strings.HasSuffix(role, "deflate") {
+				// the stored block at the start of the deflate data: its 5 header bytes and the 8 payload
+				// bytes that stand literally in the stream (an altered literal still inflates, to the same
+				// number of bytes: the trailer check is the only thing between it and the caller)
+				if o := pos - first.start - first.hlen; o < 5+c10HandLiteral {
+					b := int(st.raw[pos])
+					return []int{b, b ^ 2, b ^ 0x80, (b + 1) & 255}
+				}
 				return nil
 			}
 			return smp(pos, role)
@@ -1511,8 +1568,8 @@ func c10LongRecordBam(c *ctx) {
 	for i := 0; i < 16; i++ {
 		n := 100 + rnd.intn(100)
 		switch {
-		case i%8 == 3:
-			n = 45000 + rnd.intn(10000) // record larger than a block
+		case i%4 == 3:
+			n = c10LongSeq // record larger than a block, the boundary inside its aux data (name padding i/4)
 		case i%2 == 1:
 			n = 3500 + rnd.intn(14000) // record of 5-26 KiB
 		}
